@@ -1127,7 +1127,7 @@ private:
                 ++it;
             }
 
-            if (*it > zmax)
+            if (it != super->data.end() && *it > zmax)
                 it = super->data.end();
         }
 
